@@ -3291,7 +3291,20 @@ class QuicConnection:
             frame_type = QuicFrameType.PADDING
             reason_phrase = ""
 
-        reason_bytes = reason_phrase.encode("utf8")
+        reason_bytes = reason_phrase.encode("utf8", errors="replace")
+
+        # the frame must fit in the packet, trim the reason phrase if needed
+        max_reason_length = builder.remaining_buffer_space - (
+            APPLICATION_CLOSE_FRAME_CAPACITY
+            if frame_type is None
+            else TRANSPORT_CLOSE_FRAME_CAPACITY
+        )
+        if len(reason_bytes) > max_reason_length:
+            reason_bytes = (
+                reason_bytes[: max(0, max_reason_length)]
+                .decode("utf8", errors="ignore")
+                .encode("utf8")
+            )
         reason_length = len(reason_bytes)
 
         if frame_type is None:
